@@ -148,6 +148,9 @@ func dataflowCase(c *Ctx, focus string) {
 		case 4:
 			prog = templateDeepDisabledProg(c.Plan)
 			c.Res.Probes["template-deep-disabled-program"]++
+		case 5:
+			prog = templateMixedFlagsProg(c.Plan)
+			c.Res.Probes["template-mixed-flags-program"]++
 		case 3:
 			prog = templateNestedProg(c.Plan)
 			nested = true
@@ -653,5 +656,66 @@ func templateDisabledProg(plan *Tape) *Prog {
 		{"flags", &Expr{Kind: EArr, T: boolT.ArrayOf(), Elems: []*Expr{ref("FLAG_A", "on"), ref("FLAG_B", "on")}}, false}}
 	p.Pipelines = append(p.Pipelines, top)
 	p.Top = &CallDef{Callee: "TOPD", Id: "TOPD", Binds: []Bind{{"n", lit(plan.Draw(9)), false}}}
+	return p
+}
+
+// templateMixedFlagsProg: a pipeline map-called over literal collections which mix
+// constants with references to stage outputs; inside it a call disabled by the mapped
+// flag.  The element decides per fork whether the call runs (C03): a literal "false"
+// next to a reference that turns out true, and the other way round.
+func templateMixedFlagsProg(plan *Tape) *Prog {
+	p := &Prog{}
+	intT, boolT := Ty{Base: "int"}, Ty{Base: "bool"}
+	ref := func(call string, path ...string) *Expr { return &Expr{Kind: ERef, Call: call, Path: path} }
+	self := func(path ...string) *Expr { return &Expr{Kind: ERef, Self: true, Path: path} }
+	lit := func(v interface{}, t Ty) *Expr { return &Expr{Kind: ELit, Val: v, T: t} }
+	p.Stages = []*StageDef{
+		{Name: "FLAG", SrcKind: "comp", Ins: []Field{{"seed", intT}}, Outs: []Field{{"on", boolT}}},
+		{Name: "WORK", SrcKind: "comp", Ins: []Field{{"k", intT}}, Outs: []Field{{"res", intT}}},
+	}
+	gated := &PipelineDef{Name: "GATED", Ins: []Field{{"flag", boolT}, {"x", intT}}, Outs: []Field{{"res", intT}, {"x", intT}}}
+	gated.Calls = []*CallDef{{Callee: "WORK", Id: "WORK", Binds: []Bind{{"k", self("x"), false}}, Disabled: self("flag")}}
+	gated.Ret = []Bind{{"res", ref("WORK", "res"), false}, {"x", self("x"), false}}
+	top := &PipelineDef{Name: "TOPM", Ins: []Field{{"n", intT}}}
+	nflags := 1 + plan.Draw(3)
+	for i := 0; i < nflags; i++ {
+		seed := lit(int64(plan.Draw(60)+100*i), intT)
+		if i == 0 {
+			seed = self("n") // (MRO rejects pipeline inputs that nothing uses)
+		}
+		top.Calls = append(top.Calls, &CallDef{Callee: "FLAG", Id: fmt.Sprintf("FLAG_%d", i), Binds: []Bind{{"seed", seed, false}}})
+	}
+	n := 2 + plan.Draw(4)
+	byKey := plan.Draw(2) == 0
+	var flagEls, xEls []*Expr
+	var keys []string
+	for i := 0; i < n; i++ {
+		switch plan.Draw(4) {
+		case 0:
+			flagEls = append(flagEls, lit(true, boolT))
+		case 1, 2:
+			flagEls = append(flagEls, lit(false, boolT))
+		default:
+			flagEls = append(flagEls, ref(fmt.Sprintf("FLAG_%d", plan.Draw(nflags)), "on"))
+		}
+		xEls = append(xEls, lit(int64(10*i+plan.Draw(9)), intT))
+		keys = append(keys, fmt.Sprintf("key%d", i))
+	}
+	// at least one reference, so that the flags are not all known at compile time
+	flagEls[plan.Draw(n)] = ref(fmt.Sprintf("FLAG_%d", plan.Draw(nflags)), "on")
+	c := &CallDef{Callee: "GATED", Id: "GATED", Mapped: true}
+	if byKey {
+		c.Binds = []Bind{{"flag", &Expr{Kind: EMap, T: boolT.MapOf(), Elems: flagEls, Keys: keys}, true},
+			{"x", &Expr{Kind: EMap, T: intT.MapOf(), Elems: xEls, Keys: keys}, true}}
+		top.Outs = []Field{{"res", intT.MapOf()}, {"xs", intT.MapOf()}}
+	} else {
+		c.Binds = []Bind{{"flag", &Expr{Kind: EArr, T: boolT.ArrayOf(), Elems: flagEls}, true},
+			{"x", &Expr{Kind: EArr, T: intT.ArrayOf(), Elems: xEls}, true}}
+		top.Outs = []Field{{"res", intT.ArrayOf()}, {"xs", intT.ArrayOf()}}
+	}
+	top.Calls = append(top.Calls, c)
+	top.Ret = []Bind{{"res", ref("GATED", "res"), false}, {"xs", ref("GATED", "x"), false}}
+	p.Pipelines = []*PipelineDef{gated, top}
+	p.Top = &CallDef{Callee: "TOPM", Id: "TOPM", Binds: []Bind{{"n", lit(int64(plan.Draw(99)), intT), false}}}
 	return p
 }
